@@ -110,6 +110,11 @@ def emit() -> str:
                 marl_term = n.value.value.value
     if marl_term is None:
         raise ValueError("`terminateds = {name: <bool literal> …}` not found in PrimaiteRayMARLEnv.step")
+    # ---- PrimaiteGame.step(): the loop for scripted agents only
+    def r_gs(name, node):
+        return name
+    game_step = _calls_in_order(find_method(pg, "step"), {"pre_timestep", "get_sim_state", "update_observation", "apply_agent_actions",
+                                                          "advance_timestep", "update_agents"}, r_gs)
     # ---- one history record
     item = class_def(iface, "AgentHistoryItem")
     fields = []
@@ -179,6 +184,8 @@ def historyAppendsPerResponse : Nat := {appends}
 def marlStepPipeline : List String := {_lean_list(marl_step)}
 def marlResetPipeline : List String := {_lean_list(marl_reset)}
 def marlTerminatedLiteral : Bool := {"true" if marl_term else "false"}
+/-- `PrimaiteGame.step` (scripted agents only): calls and the step-0 guard, in source order -/
+def gameStepPipeline : List String := {_lean_list(game_step)}
 /-- fields of `AgentHistoryItem` (name, annotation) and whether each has a default -/
 def historyItemFields : List (String × String) := {pairs([(a, b) for a, b, _ in fields])}
 def historyItemRequired : List String := {_lean_list([a for a, _, d in fields if not d])}
